@@ -321,9 +321,45 @@ def hist_pairs():
     return out
 
 
+# ---- histories on ONE request object: SCRIPT_NAME changes between generations (request.script_name = ...,
+# environ['SCRIPT_NAME'] = ..., path_info_pop()), every generation judged against the environ it was made under
+POP_PATHS = ['/sub/x', '/a b/c', '//x/\xe9', '/~u', '/a%b/c', '', '/', '/x?y/z', '/app/v1/items']
+
+
+def G_text(rng):
+    return ''.join(SEG_POOL(rng) for _ in range(rng.choice([1, 2, 3])))
+
+
+def gen_req_case(rng):
+    base = gen_case(rng, True)
+    base['target'] = 'target'
+    env = base['env']
+    env['script_name'] = rng.choice(P17.SCRIPTS) if rng.random() < 0.7 else ''
+    steps = []
+
+    def gen_step():
+        els = base['elements'] if rng.random() < 0.5 else []
+        return ['gen', els, base['ov'], base['kw']]
+    if rng.random() < 0.85:
+        steps.append(gen_step())
+    for _ in range(rng.choice([1, 1, 2, 3])):
+        r = rng.random()
+        if r < 0.45:
+            steps.append(['set', rng.choice(P17.SCRIPTS), rng.choice(['attr', 'environ'])])
+        elif r < 0.6:
+            steps.append(['set', '/' + G_text(rng), rng.choice(['attr', 'environ'])])
+        else:
+            steps.append(['pop'])
+        if rng.random() < 0.9:
+            steps.append(gen_step())
+    return {'kind': 'req', 'routes': base['routes'], 'target': base['target'], 'env': env,
+            'path_info': rng.choice(POP_PATHS), 'steps': steps, 'meta': {'req': 1}}
+
+
 def generate(rng, tier, n):
     for _ in range(n):
-        yield gen_hist_case(rng) if rng.random() < 0.12 else gen_case(rng)
+        r = rng.random()
+        yield gen_hist_case(rng) if r < 0.12 else gen_req_case(rng) if r < 0.24 else gen_case(rng)
 
 
 def simple_case(pattern, kw, script='', els=(), routes_after=(('catchall', '/*all'),)):
@@ -352,6 +388,8 @@ def targeted(rng):
         out.append(simple_case('/f/{x}.' + s, [['x', ['v', ['s', 'n']]]], els=[['s', s]]))
         out.append(simple_case('/g/*r', [['r', ['q', [['s', s], ['s', 'k']], 'list']]], script='/' + s))
     out += hist_pairs()
+    for _ in range(300):
+        out.append(gen_req_case(rng))
     for _ in range(200):
         out.append(gen_hist_case(rng))
     for _ in range(400):
